@@ -36,7 +36,25 @@ def label(n, dim):
         return TYPE_LABEL[n["kind"]]
     if dim == "priority":
         return n["priority"] or ""
+    if dim == "section":
+        return " | ".join(n["section"])  # titles of the enclosing sections, outermost first
     raise KeyError(dim)
+
+
+H_MARK = {"#" * 32: 1, "=" * 24: 2, "+" * 16: 3, "-" * 8: 4}
+
+
+def sections_of(text):
+    """line number (1-based) -> titles of the sections enclosing that line, read off the header lines of the file"""
+    cur, out = {}, {}
+    for i, ln in enumerate(text.split("\n"), 1):
+        m = next((h for h in H_MARK if ln.startswith(h + " ")), None)
+        if m:
+            lv = H_MARK[m]
+            cur = {k: v for k, v in cur.items() if k < lv}
+            cur[lv] = ln[len(m) + 1:].strip()
+        out[i] = [cur[k] for k in sorted(cur)]
+    return out
 
 
 def parse(text):
@@ -175,13 +193,22 @@ def laws(tier, seed):
         lab.write("plong.zo", "# Long page\n\n" + "".join(f"- 240110#l{i:x} item number {i}\n" for i in range(1, 14)) + "\n")
         # a property with an empty value (a bare `key::` bullet followed by another property bullet)
         lab.write("pprops.zo", "# Props page\n\n- 240111#e5 has an empty status\n  * status::\n  * owner:: alice\n- 240111#e6 has a status\n  * status:: open\n\n")
+        # sibling sections whose titles are prefixes of each other (`Sprint` / `Sprint 2`, `Sub` / `Sub A`), values shared across groups
+        lab.write("psec.zo", "# Sections page\n\n" + "#" * 32 + " Sprint\n\no P1 240112#s1 todo in sprint +shared k::v1\n- 240112#s2 note in sprint +shared #work [[p1]]\nx 240112#s3 done in sprint\n\n"
+                  + "#" * 32 + " Sprint 2\n\n- 240112#s4 note in sprint two +shared k::v1 [[p1]]\no 240112#s5 todo in sprint two #work\n\n"
+                  + "=" * 24 + " Sub A\n\n- 240112#s6 note in sub a +shared\n\n" + "=" * 24 + " Sub\n\n- 240112#s7 note in sub k::v2\no P0 240112#s8 todo in sub +shared\n\n")
         lab.create()
         U = C03.universe(lab)
+        files = lab.files()
+        for m in U:
+            m["section"] = sections_of(files[m["page"]]).get(m["line"], [])
         wheres = [("- | o | x | ~ | < | >", {m["zid"] for m in U}), ("o | x", {m["zid"] for m in U if m["kind"] in ("OPEN_TODO", "CLOSED_TODO")}),
-                  ("#work", {m["zid"] for m in U if "work" in m["tags"]["areas"]}), ("f=p*", {m["zid"] for m in U if m["page"].startswith("p")})]
+                  ("#work", {m["zid"] for m in U if "work" in m["tags"]["areas"]}), ("f=p*", {m["zid"] for m in U if m["page"].startswith("p")}),
+                  ("f=psec*", {m["zid"] for m in U if m["page"].startswith("psec")}), ("f=psec*", {m["zid"] for m in U if m["page"].startswith("psec")})]
         for i in range(n):
             wt, wz = rng.choice(wheres)
-            groups = rng.sample(["file", "type", "priority", "#", "@", "%", "+", "none"], rng.randint(0, 4))
+            groups = rng.sample(["file", "type", "priority", "#", "@", "%", "+", "section", "section", "none"], rng.randint(0, 4))
+            groups = [g for j, g in enumerate(groups) if g not in groups[:j]]
             orders = [rng.choice(["alpha", "create", "modify", "priority", "type", "none"]) for _ in range(rng.randint(0, 2))]
             q, err = check_query(lab, U, "note", wt, wz, orders, groups)
             nontriv += len([g for g in groups if g != "none"]) >= 1
@@ -191,7 +218,7 @@ def laws(tier, seed):
                 samples.append({"query": q})
             # count(x) equals the number of entries selecting x yields, per group
             sel = rng.choice(["#", "@", "%", "+", "prop", "links", "file", "prop:n", "prop:due", "note"])
-            g2 = rng.sample(["file", "type", "#"], rng.randint(0, 2))
+            g2 = rng.sample(["file", "type", "#", "section", "priority"], rng.randint(0, 2))
             err = check_count(lab, sel, wt, g2)
             if err:
                 fails.append({"query": f"S count({sel}) W {wt} G {' '.join(g2)}", "error": err})
@@ -202,6 +229,9 @@ def laws(tier, seed):
             err = check_values(lab, U, sel, wt, wz)
             if err:
                 fails.append({"query": f"S {sel} W {wt} O alpha", "error": err})
+            err = check_values_grouped(lab, U, sel, wt, wz, g2, alpha=rng.random() < 0.5)
+            if err:
+                fails.append({"query": f"S {sel} W {wt} G {' '.join(g2)}", "error": err})
     return {"name": "rendering_laws", "bound": f"{n} random (where, order list <= 2, 0-4 group dimensions) x select note + count/selection cross-checks on a fixture index of 5 pages / 11 notes",
             "evaluations": 3 * n, "distinct_nontrivial": nontriv, "failures": fails, "samples": samples, "replay_fn": "replay_query"}
 
@@ -264,6 +294,50 @@ def check_values(lab, U, sel, wt, wz):
         want = {n["props"][sel[5:]] for n in notes if sel[5:] in n["props"]}
     if got != sorted(want):
         return f"selection {sel} lists {got}, expected sorted distinct {sorted(want)}"
+    return None
+
+
+def values_of(notes, sel):
+    if sel in SYM:
+        return {t for n in notes for t in n["tags"][SYM[sel]]}
+    if sel == "prop":
+        return {k for n in notes for k in n["props"]}
+    if sel == "links":
+        return {l for n in notes for l in n["links"]}
+    if sel.startswith("prop:"):
+        return {n["props"][sel[5:]] for n in notes if sel[5:] in n["props"]}
+    return None
+
+
+def check_values_grouped(lab, U, sel, wt, wz, groups, alpha):
+    """Under every group header a value selection lists exactly the distinct values carried by the notes of THAT group."""
+    from zorg.service.swog import execute
+
+    if values_of([], sel) is None:
+        return None
+    q = f"S {sel} W {wt}" + (" O alpha" if alpha else "") + (" G " + " ".join(groups) if groups else "")
+    try:
+        text = execute(lab.zdir, lab.db_url, q)
+    except Exception as e:
+        return f"execute raised {type(e).__name__}: {str(e)[:200]}"
+    got = {}
+    for labels, e in parse(text):
+        got.setdefault(tuple(l for _, l in labels), []).append(e)
+    want = {}
+    for n in U:
+        if n["zid"] in wz:
+            k = tuple(w for w in (label(n, d) for d in groups) if w != "")
+            want.setdefault(k, []).append(n)
+    for k, ns in want.items():
+        w = values_of(ns, sel)
+        g = got.get(k, [])
+        if len(g) != len(set(g)):
+            return f"{q}: group {list(k)} lists a value twice: {g}"
+        if set(g) != w or (alpha and g != sorted(w)):
+            return f"{q}: group {list(k)} lists {g}, the notes of that group carry {sorted(w)}"
+    extra = [k for k in got if k not in want and got[k]]
+    if extra:
+        return f"{q}: group {list(extra[0])} is rendered but no matching note has these labels"
     return None
 
 
